@@ -1,1 +1,67 @@
-//! (to be filled in)
+//! PosModel: (line, column) <-> byte offset. 1-based lines split at LF, 0-based byte columns.
+
+/// Byte offset of (line, col) in `input`, if it denotes a position inside the input or at its end.
+pub fn offset_of(input: &[u8], line: usize, col: usize) -> Option<usize> {
+    if line == 0 {
+        return None;
+    }
+    let mut cur_line = 1usize;
+    let mut start = 0usize;
+    if line > 1 {
+        let mut found = false;
+        for (i, &b) in input.iter().enumerate() {
+            if b == b'\n' {
+                cur_line += 1;
+                if cur_line == line {
+                    start = i + 1;
+                    found = true;
+                    break;
+                }
+            }
+        }
+        if !found {
+            return None;
+        }
+    }
+    // length of this line (excluding its LF)
+    let len = input[start..].iter().position(|&b| b == b'\n').unwrap_or(input.len() - start);
+    // a column equal to len denotes the LF (or the end of input); len+1 is not a byte of this line
+    if col <= len {
+        Some(start + col)
+    } else {
+        None
+    }
+}
+
+pub fn pos_of(input: &[u8], offset: usize) -> (usize, usize) {
+    let mut line = 1;
+    let mut col = 0;
+    for &b in &input[..offset] {
+        if b == b'\n' {
+            line += 1;
+            col = 0;
+        } else {
+            col += 1;
+        }
+    }
+    (line, col)
+}
+
+pub fn line_count(input: &[u8]) -> usize {
+    1 + input.iter().filter(|b| **b == b'\n').count()
+}
+
+/// Length of 1-based line `line` (without its LF); None if there is no such line.
+pub fn line_len(input: &[u8], line: usize) -> Option<usize> {
+    input.split(|b| *b == b'\n').nth(line.checked_sub(1)?).map(|l| l.len())
+}
+
+/// C19 location clause: 1 <= line <= lines+1 and column <= len(line)+1.
+pub fn location_in_bounds(input: &[u8], line: usize, col: usize) -> bool {
+    let lines = line_count(input);
+    if line < 1 || line > lines + 1 {
+        return false;
+    }
+    let len = line_len(input, line).unwrap_or(0);
+    col <= len + 1
+}
